@@ -1,0 +1,43 @@
+//go:build verif
+// +build verif
+
+// Contracts for package ilist, read only by the verifier in /verif (build tag verif).
+// This file contains no code.
+
+package ilist
+
+// Pointer surgery of the intrusive list, for elements whose linker is the embedded *Entry
+// (proved for every list state, no bound): only the list's head/tail and the next/prev fields
+// of the element and of its neighbours change, and they change as stated.
+//@ define ent(x) = as(x, *Entry)
+
+//@ func (*List).PushBack props C17
+//@   impl Linker *Entry
+//@   impl Element *Entry
+//@   requires l != nil && hastype(e, *Entry) && ent(e) != nil && implies(l.tail != nil, hastype(l.tail, *Entry) && ent(l.tail) != nil)
+//@   ensures l.tail == e && ent(e).prev == old(l.tail) && implies(e != old(l.tail), ent(e).next == nil)
+//@   ensures implies(old(l.tail) == nil, l.head == e)
+//@   ensures implies(old(l.tail) != nil, l.head == old(l.head) && ent(old(l.tail)).next == e)
+//@   modifies l.head, l.tail, ent(e).next, ent(e).prev, ent(l.tail).next
+
+//@ func (*List).PushFront props C17
+//@   impl Linker *Entry
+//@   impl Element *Entry
+//@   requires l != nil && hastype(e, *Entry) && ent(e) != nil && implies(l.head != nil, hastype(l.head, *Entry) && ent(l.head) != nil)
+//@   ensures l.head == e && ent(e).next == old(l.head) && implies(e != old(l.head), ent(e).prev == nil)
+//@   ensures implies(old(l.head) == nil, l.tail == e)
+//@   ensures implies(old(l.head) != nil, l.tail == old(l.tail) && ent(old(l.head)).prev == e)
+//@   modifies l.head, l.tail, ent(e).next, ent(e).prev, ent(l.head).prev
+
+// Remove unlinks e: its neighbours are linked to each other, or become head / tail.
+//@ func (*List).Remove props C17
+//@   impl Linker *Entry
+//@   impl Element *Entry
+//@   requires l != nil && hastype(e, *Entry) && ent(e) != nil
+//@   requires implies(ent(e).prev != nil, hastype(ent(e).prev, *Entry) && ent(ent(e).prev) != nil) && implies(ent(e).next != nil, hastype(ent(e).next, *Entry) && ent(ent(e).next) != nil)
+//@   ensures implies(old(ent(e).prev) == nil, l.head == old(ent(e).next))
+//@   ensures implies(old(ent(e).next) == nil, l.tail == old(ent(e).prev))
+//@   ensures implies(old(ent(e).prev) != nil && old(ent(e).prev) != old(ent(e).next), ent(old(ent(e).prev)).next == old(ent(e).next))
+//@   ensures implies(old(ent(e).next) != nil, ent(old(ent(e).next)).prev == old(ent(e).prev))
+//@   ensures implies(old(ent(e).prev) != nil, l.head == old(l.head)) && implies(old(ent(e).next) != nil, l.tail == old(l.tail))
+//@   modifies l.head, l.tail, ent(ent(e).prev).next, ent(ent(e).next).prev
